@@ -2,7 +2,7 @@
 # tools/mutant_scratch.sh <patch.diff> <ID> [tier] [extra args...]
 # Same as mutant_run.sh but without touching /repo: uses a scratch git worktree of /repo under
 # /tmp/wt-main and a copy of the harness sources under /tmp/h-main whose path dependencies point
-# at the worktree.  Evidence goes to /tmp/h-main/vroot.  Cleanup: tools/mutant_scratch.sh --clean
+# at the worktree.  Evidence goes to /tmp/h-main/evidence.  Cleanup: tools/mutant_scratch.sh --clean
 set -u
 WT=/tmp/wt-main; H=/tmp/h-main
 if [ "${1:-}" = "--clean" ]; then
@@ -12,9 +12,9 @@ P=$(realpath "$1"); ID=$2; TIER=${3:-quick}; shift; shift; [ $# -gt 0 ] && shift
 bin=$(echo "$ID" | tr 'A-Z' 'a-z')
 [ -d $WT ] || git -C /repo worktree add -q --detach $WT HEAD || exit 2
 git -C $WT checkout -q --detach "$(git -C /repo rev-parse HEAD)" && git -C $WT checkout -q -- . 
-mkdir -p $H/vroot/evidence
-rsync -a --delete --exclude 'target*' --exclude 'vroot' /verif/harness/ $H/harness/
-cp /verif/known_findings.json $H/vroot/
+mkdir -p $H/evidence
+rsync -a --delete --exclude 'target*' /verif/harness/ $H/harness/
+cp /verif/known_findings.json $H/
 sed -i "s#/repo/#$WT/#g" $(find $H/harness -name Cargo.toml)
 if [ "$P" != "/dev/null" ] && ! git -C $WT apply "$P"; then echo "patch does not apply: $P" >&2; exit 2; fi
 cd $H/harness
@@ -23,7 +23,7 @@ if ! cargo build --offline --release -p checks --bin "$bin" > $H/build.log 2>&1;
   echo "MUTANT-RESULT $(basename "$P") $ID build-failed"; grep -E "^error" -A8 $H/build.log | head -30; git -C $WT checkout -q -- .; exit 2
 fi
 if [ "$ID" = "C01" ]; then cargo build --offline --release -p c01cap >> $H/build.log 2>&1; export VERIF_C01CAP_BIN=$H/target/release/c01cap; fi
-VERIF_ROOT=$H/vroot $H/target/release/$bin "$TIER" "$@" > $H/out.log 2>&1; rc=$?
+VERIF_ROOT=$H $H/target/release/$bin "$TIER" "$@" > $H/out.log 2>&1; rc=$?
 git -C $WT checkout -q -- .
 grep -E "^(VIOLATION|KNOWN-FINDING|HELD|TOO-LITTLE|HARNESS|OBSERVED|INCONCLUSIVE)" $H/out.log | cut -c1-400 | head -8
 echo "MUTANT-RESULT $(basename "$P") $ID exit=$rc"
